@@ -245,6 +245,10 @@ func (e *linEnv) varName(v ssa.Value) string {
 		e.n++
 		name = fmt.Sprintf("%s#%d", v.Name(), e.n)
 	}
+	// a value of an unsigned integer type is >= 0 by its type (widening conversions are looked through by toLin)
+	if bt, isB := v.Type().Underlying().(*types.Basic); isB && bt.Info()&types.IsUnsigned != 0 {
+		e.lens[name] = true
+	}
 	e.names[v] = name
 	return name
 }
@@ -523,6 +527,16 @@ func (p *Prog) proveInRange(at ssa.Instruction, idx ssa.Value, base ssa.Value, s
 	if ms := e.makeOf(base); ms != nil {
 		ll = e.toLin(ms.Len, 0)
 		lenName = "len(make)=" + ll.String()
+	}
+	// an array (or pointer to array): the length is the constant of its type
+	bt := base.Type().Underlying()
+	if pt, isP := bt.(*types.Pointer); isP {
+		bt = pt.Elem().Underlying()
+	}
+	if at, isArr := bt.(*types.Array); isArr {
+		ll = newLin()
+		ll.k.SetInt64(at.Len())
+		lenName = fmt.Sprintf("array length %d", at.Len())
 	}
 	sets, complete := p.pathConstraintSets(at, e, 3000)
 	if !complete {
